@@ -29,7 +29,7 @@ func init() {
 
 // setStmtHook installs the statement-level scheduling hook of the instrumented library copy;
 // a no-op unless the harness is built with the "fine" tag (props/fine_on.go).
-var setStmtHook = func(f func()) {}
+var setStmtHook = func(f func(kind int)) {}
 
 // setHashSeed makes the string maps' hash seeds a function of the run (fine build only: the
 // instrumented copy replaces the runtime-seeded hash by a simulator-seeded one).
@@ -570,16 +570,20 @@ func runC14(c *sim.Ctx) {
 	kinds := make([]int, ntasks)
 	sameKind := cfg.Chance(1, 3) // many tasks of one kind contend for the same pool
 	k0 := cfg.Choose(len(taskKindNames))
+	bigValuesProfile = hot
+	defer func() { bigValuesProfile = false }()
 	if hot {
 		// mostly the shared maps; otherwise one pooled kind contended by every task
-		sameKind, k0 = true, []int{9, 9, 9, 2, 3, 4, 7, 0, 1}[cfg.Choose(9)]
+		sameKind, k0 = true, []int{9, 9, 9, 2, 3, 4, 7, 0, 1, 10, 11, 10, 11}[cfg.Choose(13)]
 		if ntasks < 3 {
 			ntasks = 3
 			kinds = make([]int, ntasks)
 		}
 	}
 	for i := range kinds {
-		if sameKind {
+		if sameKind && hot && (k0 == 10 || k0 == 11) {
+			kinds[i] = 10 + i%2 // buffered readers and writers contend for the same buffer class
+		} else if sameKind {
 			kinds[i] = k0
 		} else {
 			kinds[i] = cfg.Choose(len(taskKindNames))
@@ -587,7 +591,12 @@ func runC14(c *sim.Ctx) {
 	}
 	c.Tracef("cfg  %d tasks %v span=%v", ntasks, kinds, span)
 
-	// pass 1: every task alone
+	// pass 1: every task alone (the number of scheduling points it passes is the horizon for
+	// priority-based scheduling in pass 2)
+	var soloYields int64
+	if sim.FineBuild {
+		setStmtHook(func(int) { soloYields++ })
+	}
 	solo := make([]*taskRec, ntasks)
 	tapes := make([]map[string][]uint32, ntasks)
 	for i := 0; i < ntasks; i++ {
@@ -598,6 +607,10 @@ func runC14(c *sim.Ctx) {
 			// the task misbehaves when used alone: not this property's business
 			panic(&sim.Violation{Class: "SOLO_FAILURE", Site: viol.Site, Facts: sim.F{"inner": viol.Class}, Detail: "task " + taskKindNames[kinds[i]] + " fails when executed alone: " + viol.Detail})
 		}
+	}
+	setStmtHook(nil)
+	if !sim.FineBuild {
+		soloYields = c.Events // every source read, sink write and step is an event
 	}
 	mcache.SimCheckPoison()
 	c.Ev(0xC14)
@@ -612,13 +625,35 @@ func runC14(c *sim.Ctx) {
 		s.SpawnTape(taskKindNames[kinds[i]], sim.NewReplayTape(tapes[i]), taskBody(kinds[i], conc[i], sh))
 	}
 	before := mcache.SimGetStats().CrossTaskReuse
+	// a share of the runs uses priority-based scheduling with 1..3 preemption points placed
+	// within the number of scheduling points the solo pass counted
+	if cfg.Chance(2, 5) {
+		depth := 1 + cfg.Pick(2, 4, 2)
+		s.UsePCT(depth, soloYields+1)
+		c.Count("cfg.scheduler.pct")
+	}
 	if sim.FineBuild {
 		// statement-level scheduling points inside the library (instrumented copy)
 		s.StmtDen = []int{32, 8, 64, 256}[cfg.Choose(4)]
+		s.AtomicDen = s.StmtDen
 		if hot {
 			s.StmtDen = 2 + cfg.Choose(3)
+			s.AtomicDen = s.StmtDen
+			if cfg.Chance(1, 2) {
+				// atomic-focused schedule: preempt mostly in front of sync/atomic operations and
+				// let tasks run long stretches otherwise, so that one task stays parked inside a
+				// load/store pair while another completes a whole claim
+				s.StmtDen, s.AtomicDen = 64<<uint(cfg.Choose(3)), 2
+				c.Count("cfg.scheduler.atomic_focus")
+			}
 		}
-		setStmtHook(func() { s.Yield(s.Current(), sim.YStmt) })
+		setStmtHook(func(kind int) {
+			if kind == 1 {
+				s.Yield(s.Current(), sim.YAtomic)
+			} else {
+				s.Yield(s.Current(), sim.YStmt)
+			}
+		})
 	}
 	viol := s.Run()
 	setStmtHook(nil)
